@@ -246,6 +246,36 @@ static Family retry_family(const std::string &tier)
     c.name = b;
     f.cfgs.push_back(c);
   }
+  {
+    // non-initial starts: the server's latency has already been measured (three answered requests), so the base timeout
+    // of the explored attempts is the learned one. Slow server: 1100 ms per answer (5 x average = 5500 ms, above every
+    // configured maximum); fast server: immediate answers.
+    auto learned = [](int latency_ms) {
+      std::vector<std::array<int, 3>> pre;
+      int                             tx = 0;
+      for (int rqi : { 8, 1, 9 }) {
+        pre.push_back({ EV_REQ, rqi, 0 });
+        if (latency_ms) pre.push_back({ EV_ADVANCE, latency_ms, 0 });
+        pre.push_back({ EV_REPLY, tx++, RK_DATA });
+        pre.push_back({ EV_IO, 0, 0 });
+      }
+      return pre;
+    };
+    Cfg c           = cfg("srv1-tries2-to2000-max2500-from-learned-slow", 1, 2, 0);
+    c.timeout_ms    = 2000;
+    c.maxtimeout_ms = 2500;
+    c.preamble      = learned(1100);
+    f.cfgs.push_back(c);
+    Cfg d           = cfg("srv2-tries2-to2000-max0-from-learned-slow", 2, 2, ARES_FLAG_EDNS);
+    d.timeout_ms    = 2000;
+    d.preamble      = learned(1100);
+    f.cfgs.push_back(d);
+    Cfg e           = cfg("srv1-tries3-to2000-max3000-from-learned-fast", 1, 3, 0);
+    e.timeout_ms    = 2000;
+    e.maxtimeout_ms = 3000;
+    e.preamble      = learned(0);
+    f.cfgs.push_back(e);
+  }
   f.reqs     = life_reqs();
   f.req_menu = { 0, 18 };
   f.replies  = { RK_SERVFAIL, RK_REFUSED, RK_NOTIMP, RK_FORMERR_NOOPT, RK_TC, RK_BADCOOKIE, RK_DATA };
@@ -316,7 +346,7 @@ static Family adversary_family(const std::string &tier)
   f.req_menu   = { 0, 18 };
   f.req_repeat = true;
   f.replies    = { RK_DATA, RK_TC, RK_SERVFAIL, RK_CK_VALID };
-  f.forges     = { FG_WRONGID, FG_WRONGNAME, FG_WRONGTYPE, FG_WRONGCLASS, FG_CASEFLIP, FG_WRONGSRC, FG_OTHERSOCK, FG_NOCOOKIE, FG_BADCLIENTCOOKIE };
+  f.forges     = { FG_WRONGID, FG_WRONGNAME, FG_WRONGTYPE, FG_WRONGCLASS, FG_CASEFLIP, FG_WRONGSRC, FG_OTHERSOCK, FG_NOCOOKIE, FG_BADCLIENTCOOKIE, FG_WRONGSRC_FRAMED };
   f.evmask     = EVBIT(EV_REQ) | EVBIT(EV_REPLY) | EVBIT(EV_FORGE) | EVBIT(EV_IO) | EVBIT(EV_TIMER);
   f.max_req    = 2;
   f.max_forge  = tier == "quick" ? 1 : 2;
